@@ -198,6 +198,7 @@ func runC15(c *Ctx) {
 			c.R.Check(o.OK, rule, o.Key, o.Site, o.Detail, o.Detail)
 		}
 		checkD5bad(c, pr)
+		checkD5b(c, pr)
 	}
 	checkD7D8(c)
 }
@@ -462,6 +463,30 @@ func checkD2(c *Ctx, pr *prioRoles) {
 					c.R.Check(okForm, "D2", key, p.InstrPos(in), what, "field "+field+" is rebuilt by "+what+": not an order-preserving filter of the registered list, so the divider may see an unsorted or duplicated list")
 				}
 			}
+		}
+	}
+	// every function that appends to a filter field truncates it first
+	for _, field := range []string{"uncrowded", "useful"} {
+		for _, fn := range pr.rt.Funcs {
+			var trunc, app ssa.Instruction
+			for _, b := range fn.Blocks {
+				for _, in := range b.Instrs {
+					st, ok := fieldStore(in, field)
+					if !ok {
+						continue
+					}
+					if _, isSl := st.Val.(*ssa.Slice); isSl {
+						trunc = in
+					} else {
+						app = in
+					}
+				}
+			}
+			if app == nil {
+				continue
+			}
+			okT := trunc != nil && instrDominates(trunc, app) && !blockInLoop(trunc.Block())
+			c.R.Check(okT, "D2", p.FnKey(fn)+"#"+field+"-truncate", p.InstrPos(app), "list emptied before it is rebuilt", "the "+field+" list is appended to without being emptied first: entries of earlier rounds stay and the divider is given duplicates")
 		}
 	}
 	// the sort helper
@@ -743,4 +768,46 @@ func checkD7D8(c *Ctx) {
 		c.R.Fail("D8", p.FnKey(ctor)+"#zero-share-test", p.Pos(ctor.Pos()), "the constructor does not reject configurations in which some priority's share is zero")
 	}
 	_ = types.Typ
+}
+
+// checkD5b: the verdict of every checked division is tested, and a non-nil verdict is returned.
+func checkD5b(c *Ctx, pr *prioRoles) {
+	p := pr.p
+	n := 0
+	for _, cs := range p.CallSites(pr.safeDivideFn) {
+		call, ok := cs.(*ssa.Call)
+		if !ok {
+			continue
+		}
+		n++
+		fn := call.Parent()
+		tested := false
+		for _, ref := range *call.Referrers() {
+			bo, isBo := ref.(*ssa.BinOp)
+			if !isBo || !isNilConst(bo.Y) || (bo.Op != token.NEQ && bo.Op != token.EQL) {
+				continue
+			}
+			for _, r2 := range *bo.Referrers() {
+				iff, isIf := r2.(*ssa.If)
+				if !isIf {
+					continue
+				}
+				errSucc := 0
+				if bo.Op == token.EQL {
+					errSucc = 1
+				}
+				tb := iff.Block().Succs[errSucc]
+				if ret, isRet := tb.Instrs[len(tb.Instrs)-1].(*ssa.Return); isRet && len(ret.Results) > 0 && returnedValues(ret)[len(ret.Results)-1] == ssa.Value(call) {
+					tested = true
+				}
+			}
+		}
+		// or handed straight back: `return safeDivide(...)`
+		for _, ref := range *call.Referrers() {
+			if ret, isRet := ref.(*ssa.Return); isRet && ret.Results[len(ret.Results)-1] == ssa.Value(call) && ret.Block() == call.Block() {
+				tested = true
+			}
+		}
+		c.R.Check(tested, "D5", fmt.Sprintf("%s#verdict.%d", p.FnKey(fn), n), p.InstrPos(call), "non-nil verdict returned to the caller", "the verdict of this checked division is not (only) returned when it is non-nil: a divider fault here is swallowed or a correct division is treated as a fault")
+	}
 }
